@@ -274,11 +274,16 @@ pub fn run_c02(tier: &str, seed: u64) -> Report {
       }
     }
   }
+  fast_check_graphs_part(&mut report, &mut rng, if tier == "thorough" { 1500 } else { 150 });
   batch.finish(&mut report, "C02");
   report
 }
 
 fn verdict_check(report: &mut Report, w: &World, what: &str, o: &WOpts, verdict: &str, expected: &[ExpectedFailure]) {
+  verdict_check_desc(report, json!({"world": w.describe()}), what, o, verdict, expected)
+}
+
+fn verdict_check_desc(report: &mut Report, desc: serde_json::Value, what: &str, o: &WOpts, verdict: &str, expected: &[ExpectedFailure]) {
   if verdict == "ok" {
     if let Some(f) = expected.first() {
       // a reachable failure was silently skipped
@@ -296,7 +301,7 @@ fn verdict_check(report: &mut Report, w: &World, what: &str, o: &WOpts, verdict:
         "oracle",
         shape,
         format!("{} with {} is Ok although {} ({}) is reachable", what, o.label(), f.token, f.why),
-        json!({"world": w.describe(), "options": o.label(), "expected": expected.iter().map(|f| f.why.clone()).collect::<Vec<_>>()}),
+        json!({"input": desc, "options": o.label(), "expected": expected.iter().map(|f| f.why.clone()).collect::<Vec<_>>()}),
       );
     }
   } else {
@@ -306,8 +311,41 @@ fn verdict_check(report: &mut Report, w: &World, what: &str, o: &WOpts, verdict:
         "oracle",
         if expected.is_empty() { "validation-fails-without-reachable-failure" } else { "validation-reports-unexpected-error" },
         format!("{} with {} = {} but the reachable failures are {:?}", what, o.label(), verdict, expected.iter().map(|f| f.token.clone()).collect::<Vec<_>>()),
-        json!({"world": w.describe(), "options": o.label()}),
+        json!({"input": desc, "options": o.label()}),
       );
+    }
+  }
+}
+
+/// graphs that carry fast check modules (a generated JSR package) in which one module imports a
+/// specifier that does not resolve and uses it inside a function body only - fast check drops that
+/// import from the module's fast check dependencies; every walk option: the verdict against the
+/// statement's failure predicate
+fn fast_check_graphs_part(report: &mut Report, rng: &mut Rng, n: usize) {
+  use crate::fc::*;
+  use crate::fcgen::Item;
+  for i in 0..n {
+    let mut pr = rng.fork();
+    let mut pkg = crate::c09::gen_pkg(&mut pr, i);
+    let fi = pr.below(pkg.files.len());
+    let bad = *pr.pick(&["bare-helper-lib", "http://insecure.example/helper.ts", "file:///etc/helper.ts"]);
+    pkg.files[fi].items.insert(0, Item::SideEffect(format!("import {{ helper }} from \"{}\";\nfunction useHelper(): unknown {{ return helper; }}", bad)));
+    let w = crate::c09::world_of(&pkg);
+    let run = run_fast_check(&w, None, false);
+    let g = &run.graph;
+    let with_fc = run.slots.values().filter(|s| matches!(s, FcSlot::Module { .. })).count();
+    report.count(if with_fc > 0 { "fast-check-graphs:with-fast-check-modules" } else { "fast-check-graphs:without" });
+    let mut ctx = Ctx::default();
+    let desc = json!({"fast_check_world": w.describe(), "unresolvable_import": bad, "in_file": pkg.files[fi].path});
+    let root_specs: Vec<ModuleSpecifier> = g.roots.iter().cloned().collect();
+    let roots: Vec<usize> = root_specs.iter().map(|r| ctx.spec(r)).collect();
+    for o in all_wopts(None) {
+      report.evaluations += 1;
+      let v = impl_validate(&mut ctx, g, &o, &roots).unwrap_or_else(|| "ok".to_string());
+      let exp = reachable(&ctx, g, &o, &root_specs, &HashSet::new());
+      let expected = expected_failures(&mut ctx, g, &o, &exp);
+      verdict_check_desc(report, desc.clone(), "walk(roots).validate() on a graph with fast check modules", &o, &v, &expected);
+      report.nontrivial.insert(format!("fc-graph/{}/{}/f{}", o.label(), if v == "ok" { "ok" } else { "err" }, expected.len().min(3)));
     }
   }
 }
